@@ -84,6 +84,50 @@ def run(ctx):
         if nmis <= 3:
             ctx.add(Finding("broken", "broken:tie:" + name, "correspondence %s: %s: results / start counts / start order differ from FnModel (limit, conservation and wait_for_all oracles hold on this run)" % (name, describe(c)), rep))
     ctx.ties.append({"name": name, "cases": len(cases), "disagreements": nmis, "oracle_violations": nviol})
+    # ---- rejecting node behind a buffering sender: quiescent white-box states compared with PullModel
+    rng = ctx.rng
+    pcases = []
+    for _ in range(ctx.scale(60, 1500)):
+        mx = rng.choice([1, 1, 2, 3])
+        c = [mx]
+        v = 10
+        running = 0
+        for _ in range(rng.randint(3, 24)):
+            if rng.random() < 0.6:
+                c += [1, v]
+                v += 1
+            else:
+                c += [2, 0]
+        pcases.append(c)
+    ctx.rules.append("fnode-pull: queue_node -> rejecting function_node (limit 1-3) with script-released bodies; after every put / body release the graph settles and my_concurrency, items in the queue, "
+                     "'queue registered as predecessor', forwarder_busy and the bodies started are compared with PullModel (settled after each external operation); nothing may be left in the queue at the end")
+
+    def pull_oracle(c, toks):
+        if not toks or toks[-1] == "HANG" or toks[0].startswith("CRASH"):
+            return ("fnode-pull-hang", "queue_node -> rejecting function_node(limit %d), ops %s: hang/crash" % (c[0], c[1:]))
+        if "LEFT" in toks and toks[toks.index("LEFT") + 1] != "0":
+            return ("fnode-message-stranded", "queue_node -> rejecting function_node(limit %d), ops %s: wait_for_all returned with %s message(s) left in the queue" % (c[0], c[1:], toks[toks.index("LEFT") + 1]))
+        return None
+    rc, plines, err = ctx.run_driver(exe, ["pullseq"], pcases, timeout=900)
+    pmodel = ctx.modelrun("pull", pcases)
+    pbad = 0
+    for c, ln, mo in zip(pcases, plines + ["CRASH"] * (len(pcases) - len(plines)), pmodel):
+        ctx.count(("fnode-pull", tuple(c)), True, "fnode-pull limit=%d" % c[0])
+        toks = ln.split()
+        v = pull_oracle(c, toks)
+        if v:
+            pbad += 1
+            ctx.add(Finding("violation", v[0], v[1], {"tie": "fnode-pull", "case": c}))
+            continue
+        k = toks.index("LEFT") if "LEFT" in toks else len(toks)
+        if toks[:k] != [str(x) for x in mo]:
+            pbad += 1
+            if pbad <= 3:
+                ctx.add(Finding("broken", "broken:tie:fnode-pull", "queue_node -> rejecting function_node(limit %d), ops %s: settled states (concurrency, queued, pull mode, forwarder_busy, started)* = %s differ from PullModel's %s" % (
+                    c[0], c[1:], " ".join(toks[:k]), " ".join(str(x) for x in mo)), {"tie": "fnode-pull", "case": c}))
+        else:
+            ctx.traces_validated += 1
+    ctx.ties.append({"name": "fnode-pull", "cases": len(pcases), "disagreements": pbad})
     bad = 0
     runs = []
     for r in range(ctx.scale(10, 150)):
@@ -116,6 +160,10 @@ def run(ctx):
 def replay(ctx, rep):
     lib, err = ctx.build_lib("tbb")
     exe, err = ctx.build_driver("drv_fnode", libs=[lib])
+    if rep.get("tie") == "fnode-pull":
+        print(ctx.run_driver(exe, ["pullseq"], [rep["case"]], timeout=300)[1])
+        print(ctx.modelrun("pull", [rep["case"]]))
+        return
     if rep.get("tie") == "fnode-seq":
         print(ctx.run_driver(exe, ["seq"], [rep["case"]], timeout=300)[1])
         print(ctx.modelrun("fnode", [rep["case"]]))
